@@ -39,6 +39,14 @@ CHECKS = {
         "united with the published construction.",
         design="4/C05",
     ),
+    "C06": dict(
+        text="Every query of the ID, IDC, TRSO, ID* and IDC* input spaces (bounds as in C01/C03/C05/C07/C08, without numeric "
+        "evaluation) is run and every returned expression tree is walked term by term against the vocabulary rules: "
+        "observational terms over graph nodes only (ID/IDC), target or declared-domain terms with subscripts inside the declared "
+        "experiments and no transport node (TRSO), single-world terms (ID*/IDC*).",
+        note="Purely syntactic oracle over the real outputs; bounded-exhaustive over inputs.",
+        design="4/C06",
+    ),
     "C07": dict(
         text="Every conjunction of up to two counterfactual event items (all consistent subscript assignments incl. reflexive ones, "
         "values - and +) on every graph of the bound is passed to id_star; the result is evaluated on two functional witness SCMs by "
